@@ -503,7 +503,59 @@ def _ext_type_sweep(tier, rng):
                 out.append(Case("%s %s" % (e, enc.hex()), exp, "typesweep"))
     return out
 
+PROPS["C09"] = dict(
+    families=[], corpus_entries=[], small_scope=[], thorough_mult=1,
+    configs=["serialize"], spec={"@ser": "spec.@ser"},
+)
+def _ser_cases(tier, rng):
+    """serializable values within wire limits (and unsupported ones): descriptions read by both sides"""
+    from vlib import Case
+    def hx(n): return bytes(rng.randrange(256) for _ in range(n)).hex() or "-"
+    def sid(): return rng.choice(["N", hx(1), hx(32), hx(rng.randrange(1, 33))])
+    def ext(): return rng.choice(["N", "-", hx(rng.randrange(1, 40))])
+    def nums(maxn, bits):
+        n = rng.choice([0, 1, 2, rng.randrange(maxn + 1)])
+        return ".".join(str(rng.choice([0, 1, (1 << bits) - 1, rng.randrange(1 << bits)])) for _ in range(n)) or "-"
+    def ver(): return rng.choice([0x0300, 0x0301, 0x0302, 0x0303])
+    def msg(kind=None):
+        k = kind or rng.choice(["ch", "sh", "sh13", "cke", "fin", "hr", "ccs", "alert", "app", "cert"])
+        if k == "ch": return "ch,%d,%s,%s,%s,%s,%s" % (rng.choice([ver(), 0x0304, rng.randrange(65536)]), hx(32), sid(), nums(30, 16), nums(4, 8), ext())
+        if k == "sh":
+            v = ver(); return "sh,%d,%s,%s,%d,%d,%s" % (v, hx(32), sid(), rng.randrange(65536), rng.randrange(256), "N" if v == 0x0300 else ext())
+        if k == "sh13": return "sh13,%d,%s,%d,%s" % (0x7f12, hx(32), rng.randrange(65536), ext())
+        if k == "cke": return "cke,%s,%s" % (rng.choice("ude"), hx(rng.choice([0, 1, 32, 65, 255])))
+        if k == "fin": return "fin,%s" % hx(rng.choice([0, 12, 36]))
+        return k
+    def ex():
+        k = rng.choice(["sni", "sni", "mfl", "groups", "other"])
+        if k == "sni":
+            n = rng.choice([0, 1, 1, 2, 3])
+            return "sni," + (".".join("%d:%s" % (rng.choice([0, 0, 1, 255]), hx(rng.choice([0, 1, 14, 40]))) for _ in range(n)) or "-")
+        if k == "mfl": return "mfl,%d" % rng.randrange(256)
+        if k == "groups": return "groups," + nums(8, 16)
+        return "other"
+    out = []
+    n = 2500 if tier == "quick" else 40000
+    for _ in range(n):
+        out.append("@ser msg " + msg())
+    for _ in range(n // 3):
+        k = rng.randrange(1, 4)
+        hs = rng.random() < 0.6
+        ms = [msg(rng.choice(["ch", "sh", "sh13", "cke", "fin", "hr"])) if hs else "ccs" for _ in range(k)]
+        if rng.random() < 0.15: ms[rng.randrange(k)] = rng.choice(["alert", "app", "cert"])
+        ty = (22 if hs else 20) if rng.random() < 0.85 else rng.choice([20, 21, 22, 23])
+        out.append("@ser rec %d %d %s" % (ty, rng.choice([ver(), 0xfeff]), ";".join(ms)))
+    for _ in range(n // 2):
+        out.append("@ser ext " + ex())
+    for _ in range(n // 3):
+        out.append("@ser exts " + (";".join(ex() for _ in range(rng.randrange(0, 5))) or "-"))
+    # many cipher suites (length field of the list and of the message)
+    for k in (255, 256, 1000, 32767):
+        out.append("@ser msg ch,771,%s,N,%s,0,N" % (hx(32), ".".join(str(i & 0xffff) for i in range(k))))
+    return [Case(l, "", "serialize") for l in out]
+
 def extra_cases(pid, tier, seed, rng):
+    if pid == "C09": return _ser_cases(tier, rng)
     if pid == "C05": return _ext_type_sweep(tier, rng)
     if pid == "C13": return _kx_sweeps(tier, rng)
     if pid == "C07": return _defrag_histories(tier, seed, rng)
